@@ -35,7 +35,7 @@ LEVEL = {'C01': 'exploration', 'C02': 'exploration', 'C04': 'exploration', 'C05'
          'C10': 'exploration', 'C15': 'exploration', 'C16': 'exploration'}
 
 BUDGET = {  # seconds of job time (wall), max jobs
-    'quick': {'C01': (50, 10 ** 6), 'C02': (70, 10 ** 6), 'C10': (45, 10 ** 6), 'C04': (45, 10 ** 6), 'C05': (75, 10 ** 6), 'C06': (35, 10 ** 6), 'C15': (30, 10 ** 6), 'C16': (55, 10 ** 6)},
+    'quick': {'C01': (50, 10 ** 6), 'C02': (70, 10 ** 6), 'C10': (45, 10 ** 6), 'C04': (45, 10 ** 6), 'C05': (60, 10 ** 6), 'C06': (35, 10 ** 6), 'C15': (30, 10 ** 6), 'C16': (55, 10 ** 6)},
     'thorough': {'C01': (1200, 10 ** 7), 'C02': (2400, 10 ** 7), 'C10': (1500, 10 ** 7), 'C04': (1200, 10 ** 7), 'C05': (2400, 10 ** 7),
                  'C06': (1000, 10 ** 7), 'C15': (900, 10 ** 7), 'C16': (1800, 10 ** 7)},
 }
